@@ -106,6 +106,10 @@ def run(run: common.Run):
                                rasters.Fraction(1, 8))
             case['halvings'], case['family'] = 0, 'dyadic'
             run.hist['non-square source pixels'] += 1
+        if case['model'] == 'gain-blk-offset' and case['i'] % 18 == 1 and not src_coarser:
+            # source and reference on the very same pixel grid (two products of one tile grid): nothing needs to be resampled
+            ref = rasters.Grid(src.x0 - 3 * src.px, src.ytop + 2 * src.py, src.px, src.py, src.w + 6, src.h + 5, src.unit)
+            run.hist['source and reference on the same pixel grid'] += 1
         proc_ref = src.px * src.py <= ref.px * ref.py
         nb = case['nb']
         if proc_ref:
